@@ -17,7 +17,8 @@ Reset(ev) ==
 \* unused token) is not met: the specification must agree that it is not met
 Skipped(ev) ==
   LET h == ev.arg.h IN
-  /\ CASE ev.a = "ielem"    -> Shared(h) \/ ev.arg.pos >= Used(h)
+  /\ CASE ev.a = "ielem"    -> Shared(h) \/ ev.arg.pos >= Used(h) \/ ~Free(ev.arg.o)
+       [] ev.a \in {"rinsert", "rset", "iappend", "iset", "gappend", "gadd", "cfgset"} -> ~Free(ev.arg.o)
        [] ev.a = "ctor"     -> ~IsNull(h)
        [] ev.a = "cfgdel"   -> Shared(h)
        [] ev.a = "cmdset"   -> Shared(h) \/ (ev.arg.tok # 0 /\ cnt[ev.arg.tok] # 0)
